@@ -9,15 +9,17 @@
    = may match"; a NaN is within no numeric bound).  `sat xc p r` is the SQL
    three-valued meaning of p on r; Int x Float compares in f64 as the engine
    does; `xc` is what the engine makes of comparisons across type classes
-   (string vs number, ...) — the theorems hold for every xc.
+   (string vs number, ...), `xg` what it makes of a BETWEEN / IN whose members
+   belong to different type classes — the theorems hold for every xc and xg.
+   BETWEEN and IN are coerced as a group (one float member => all compared in f64).
 
    The full-strength statement
-     C12_sound : forall xc p st rows, (forall r, In r rows -> in_stats r st) ->
-                 eval_stats p st = false -> forall r, In r rows -> sat xc p r <> TT
-   is FALSE of the code: see C12_refuted_int_stats_float_row.  The strongest
-   true statement is C12_modulo_known; C12_sound_typed_stats and
-   C12_sound_int_str are the full statement on inputs where the class cannot
-   occur. *)
+     C12_sound : forall xc xg p st rows, (forall r, In r rows -> in_stats r st) ->
+                 eval_stats p st = false -> forall r, In r rows -> sat xc xg p r <> TT
+   is FALSE of the code: see C12_refuted_int_stats_float_row and
+   C12_refuted_float_literal_in_between.  The strongest true statement is
+   C12_modulo_known; C12_sound_well_typed is the full statement on well-typed
+   inputs (no implicit coercion), where the class cannot occur. *)
 From CS Require Import Base.Prelude Base.F64Order Model.StatsPrune Proofs.StatsPruneProofs.
 Open Scope Z_scope.
 
@@ -26,70 +28,79 @@ Open Scope Z_scope.
    string), all rows within them: a pruned chunk holds no satisfying row —
    outside the one known class. *)
 Theorem C12_modulo_known :
-  forall (xc : cop -> value -> value -> tv) (p : pred) (st : stats) (rows : list row),
+  forall (xc : cop -> value -> value -> tv) (xg : list value -> tv)
+         (p : pred) (st : stats) (rows : list row),
   (forall r, In r rows -> in_stats r st) ->
   eval_stats p st = false ->
-  forall r, In r rows -> known_mixed p st r = false -> sat xc p r <> TT.
+  forall r, In r rows -> known_mixed p st r = false -> sat xc xg p r <> TT.
 Proof. exact sound_modulo_known_rows. Qed.
 Print Assumptions C12_modulo_known.
 
-(* Known class (open finding): integer statistics, integer literal, float row
-   value: statistics [2^53+4, 2^53+4], `v <= 2^53+3`, row value 2^53+4 as f64.
-   The code compares literal and statistic in i64 and prunes; the engine
-   compares row and literal in f64, where 2^53+3 rounds to 2^53+4. *)
+(* Known class (open finding), first trigger: integer statistics, integer
+   literal, float row value: statistics [2^53+4, 2^53+4], `v <= 2^53+3`, row
+   value 2^53+4 as f64.  The code compares literal and statistic in i64 and
+   prunes; the engine compares row and literal in f64, where 2^53+3 rounds to
+   2^53+4. *)
 Theorem C12_refuted_int_stats_float_row :
   exists p st r,
-    in_stats r st /\ eval_stats p st = false /\ sat xc_unknown p r = TT /\
+    in_stats r st /\ eval_stats p st = false /\ sat xc_unknown xg_unknown p r = TT /\
     known_mixed p st r = true.
 Proof. exact refuted_mixed. Qed.
 Print Assumptions C12_refuted_int_stats_float_row.
 
-(* Full statement when float-valued columns do not carry integer-typed
-   statistics (what a writer that serialises the column's own min / max emits). *)
-Theorem C12_sound_typed_stats :
-  forall (xc : cop -> value -> value -> tv) (p : pred) (st : stats) (rows : list row),
-  (forall r, In r rows -> in_stats r st /\ float_cols_typed r st) ->
-  eval_stats p st = false ->
-  forall r, In r rows -> sat xc p r <> TT.
-Proof. exact sound_typed. Qed.
-Print Assumptions C12_sound_typed_stats.
+(* Second trigger: integer column and statistics, but a float literal in the
+   same BETWEEN makes the engine compare all three operands in f64:
+   `v BETWEEN 0.5 AND 2^53`, statistics [2^53+1, 2^53+1], row 2^53+1. *)
+Theorem C12_refuted_float_literal_in_between :
+  in_stats w_between_row w_between_stats /\
+  eval_stats w_between_pred w_between_stats = false /\
+  sat xc_unknown xg_unknown w_between_pred w_between_row = TT /\
+  known_mixed w_between_pred w_between_stats w_between_row = true.
+Proof. exact refuted_mixed_between. Qed.
+Print Assumptions C12_refuted_float_literal_in_between.
 
-(* Full statement for integer / string / boolean / NULL rows. *)
-Theorem C12_sound_int_str :
-  forall (xc : cop -> value -> value -> tv) (p : pred) (st : stats) (rows : list row),
-  (forall r, In r rows -> in_stats r st /\ no_float r) ->
+(* Full statement for well-typed queries and rows: every column has one type
+   (integer, float, string, boolean); row values and the literals compared
+   with the column are NULL or of that type.  Statistics are arbitrary. *)
+Theorem C12_sound_well_typed :
+  forall (xc : cop -> value -> value -> tv) (xg : list value -> tv) (ty : typing)
+         (p : pred) (st : stats) (rows : list row),
+  pred_typed ty p = true ->
+  (forall r, In r rows -> in_stats r st /\ row_typed ty r) ->
   eval_stats p st = false ->
-  forall r, In r rows -> sat xc p r <> TT.
-Proof. exact sound_int_str. Qed.
-Print Assumptions C12_sound_int_str.
+  forall r, In r rows -> sat xc xg p r <> TT.
+Proof. exact sound_well_typed. Qed.
+Print Assumptions C12_sound_well_typed.
 
 (* get_chunks_with_predicates drops a chunk only if one of the extracted
    predicates is unsatisfiable on every row within the chunk's statistics. *)
 Theorem C12_gate_sound :
-  forall (xc : cop -> value -> value -> tv) (preds : list pred) (st : stats) (rows : list row),
+  forall (xc : cop -> value -> value -> tv) (xg : list value -> tv)
+         (preds : list pred) (st : stats) (rows : list row),
   (forall r, In r rows -> in_stats r st) ->
   gate preds st = false ->
   forall r, In r rows ->
     (forall p, In p preds -> known_mixed p st r = false) ->
-    exists p, In p preds /\ sat xc p r <> TT.
+    exists p, In p preds /\ sat xc xg p r <> TT.
 Proof. exact gate_sound. Qed.
 Print Assumptions C12_gate_sound.
 
 (* convert_expr_to_predicate: whatever it converts means the same as the
    SQL expression (comparisons, [NOT] IN, BETWEEN, AND / OR / NOT). *)
 Theorem C12_convert_exact :
-  forall (xc : cop -> value -> value -> tv) (e : expr) (p : pred),
-  convert e = Some p -> forall r, esat xc e r = sat xc p r.
+  forall (xc : cop -> value -> value -> tv) (xg : list value -> tv) (e : expr) (p : pred),
+  convert e = Some p -> forall r, esat xc xg e r = sat xc xg p r.
 Proof. exact convert_exact. Qed.
 Print Assumptions C12_convert_exact.
 
 (* expression -> predicate -> verdict *)
 Theorem C12_convert_then_prune_sound :
-  forall (xc : cop -> value -> value -> tv) (e : expr) (p : pred) (st : stats) (rows : list row),
+  forall (xc : cop -> value -> value -> tv) (xg : list value -> tv)
+         (e : expr) (p : pred) (st : stats) (rows : list row),
   convert e = Some p ->
   (forall r, In r rows -> in_stats r st) ->
   eval_stats p st = false ->
-  forall r, In r rows -> known_mixed p st r = false -> esat xc e r <> TT.
+  forall r, In r rows -> known_mixed p st r = false -> esat xc xg e r <> TT.
 Proof. exact convert_then_prune_sound. Qed.
 Print Assumptions C12_convert_then_prune_sound.
 
@@ -99,10 +110,10 @@ Print Assumptions C12_convert_then_prune_sound.
 Theorem C12_fixed_end_points :
   in_stats [(w_col, VInt 5)] w_59_stats /\
   eval_stats_shared_arms w_le_pred w_59_stats = false /\
-  sat xc_unknown w_le_pred [(w_col, VInt 5)] = TT /\
+  sat xc_unknown xg_unknown w_le_pred [(w_col, VInt 5)] = TT /\
   in_stats [(w_col, VInt 9)] w_59_stats /\
   eval_stats_shared_arms w_ge_pred w_59_stats = false /\
-  sat xc_unknown w_ge_pred [(w_col, VInt 9)] = TT /\
+  sat xc_unknown xg_unknown w_ge_pred [(w_col, VInt 9)] = TT /\
   eval_stats w_le_pred w_59_stats = true /\
   eval_stats w_ge_pred w_59_stats = true.
 Proof. exact refuted_shared_arms. Qed.
@@ -115,7 +126,7 @@ Theorem C12_fixed_not_between :
   let st := [(w_col, mkStats (JInt 30) (JInt 40) false)] in
   let r := [(w_col, VInt 35)] in
   exists p, convert_negation_dropped e = Some p /\
-    in_stats r st /\ eval_stats p st = false /\ esat xc_unknown e r = TT /\
+    in_stats r st /\ eval_stats p st = false /\ esat xc_unknown xg_unknown e r = TT /\
     convert e = None.
 Proof. exact refuted_negation_dropped. Qed.
 Print Assumptions C12_fixed_not_between.
